@@ -17,7 +17,7 @@ RULE = ("(a) every uatomic operation (set, read, xchg, cmpxchg miss and hit, add
         "(u8, s8, u16, s16, u32, s32, u64, s64, unsigned long; pointer cells for xchg/cmpxchg) x every aligned offset inside a guarded "
         "16-byte window x operands: ALL 65536 (old, operand) pairs for the 8-bit types, the full 24x24(x24 for 8-bit, x5 otherwise) "
         "product of a boundary alphabet (0, +-1, +-2, width boundaries 0x7f/0x80/0xff/0x100/.../2^63, alternating bit patterns) for "
-        "the others - result and complete memory image (neighbouring bytes included) compared with a plain-C reference, for the x86 "
+        "the others, plus operands whose type differs from the cell type (7 cell types x 8 operand types u8/s8/u16/s16/unsigned/int/unsigned long/long, converted by the C rules) - result and complete memory image (neighbouring bytes included) compared with a plain-C reference, for the x86 "
         "asm back-end and the compiler-builtin back-end, at -O1 and -O2; (b) for each of 10 read-modify-write operations x 4 widths x 2 "
         "back-ends the instructions the compiler emitted for a probe are parsed, interpreted sequentially against the native "
         "function and the documented semantics on a 22-value operand grid (binding), and translated into a Promela model of two "
